@@ -39,6 +39,16 @@ Section Canon.
   Definition bind {A B} (o : option A) (f : A -> option B) : option B :=
     match o with Some a => f a | None => None end.
 
+  (* u.SearchParams().Iterate(decodeEncode name / value), which ends with update() *)
+  Definition reencode_params (u : url) : option url :=
+    let '(u, l) := ensure_sp c u in
+    let l' := map (fun nv : str * str =>
+                    (decodeEncode (fst nv) pes_RepeatedQuery, decodeEncode (snd nv) pes_RepeatedQuery)) l in
+    if forallb (fun nv => is_some (fst nv) && is_some (snd nv)) l'
+    then Some (sp_update c u (map (fun nv => (match fst nv with Some x => x | None => [] end,
+                                              match snd nv with Some x => x | None => [] end)) l'))
+    else None.
+
   (* None = panic / out of fuel somewhere below *)
   Definition Canonicalize (u : url) : option url :=
     bind (if p_repeated p then
@@ -48,13 +58,12 @@ Section Canon.
       bind (if negb (is_nil pn)
             then bind (decodeEncode pn pes_LaxPath) (SetPathname idna_raw c u) else Some u) (fun u =>
       bind (if negb (is_nil (Search u)) then
-              let '(u, l) := ensure_sp c u in
-              let l' := map (fun nv : str * str =>
-                              (decodeEncode (fst nv) pes_RepeatedQuery, decodeEncode (snd nv) pes_RepeatedQuery)) l in
-              if forallb (fun nv => is_some (fst nv) && is_some (snd nv)) l'
-              then Some (sp_update c u (map (fun nv => (match fst nv with Some x => x | None => [] end,
-                                                        match snd nv with Some x => x | None => [] end)) l'))
-              else None
+              (* decode-and-encode every name and value; then, if a query is left, read it back the way the next
+                 parse will (SetSearch re-initialises the list) and encode once more *)
+              bind (reencode_params u) (fun u =>
+                if negb (is_nil (Search u))
+                then bind (SetSearch idna_raw c u (Search u)) reencode_params
+                else Some u)
             else Some u) (fun u =>
       if negb (is_nil (Hash u))
       then bind (decodeEncode (trim_prefix1 35 (Hash u)) pes_Host) (SetHash idna_raw c u) else Some u))))
